@@ -496,7 +496,7 @@ static void cmd_build (int argc, char **argv)
 {
   int type = 0, flags = 0, i; unsigned serial = 0, rserial = 0;
   char *path = NULL, *iface = NULL, *member = NULL, *errname = NULL, *dest = NULL, *sender = NULL, *cinst = NULL;
-  const char *body = NULL; DBusMessage *m, *copy; int specific, fixed;
+  const char *body = NULL, *fops = NULL; DBusMessage *m, *copy; int specific, fixed;
   if (argc < 4) { ob_puts (&out, "ERR badargs"); return; }
   specific = argv[1][0] == 's'; fixed = argv[2][0] == 'f';
   for (i = 3; i < argc; i++)
@@ -504,6 +504,7 @@ static void cmd_build (int argc, char **argv)
       char *a = argv[i];
       if (!strncmp (a, "T=", 2)) type = atoi (a + 2);
       else if (!strncmp (a, "F=", 2)) flags = atoi (a + 2);
+      else if (!strncmp (a, "FOPS=", 5)) fops = a + 5;
       else if (!strncmp (a, "S=", 2)) serial = (unsigned) strtoul (a + 2, NULL, 10);
       else if (!strncmp (a, "rserial=", 8)) rserial = (unsigned) strtoul (a + 8, NULL, 10);
       else if (!strncmp (a, "path", 4)) path = field_dup (a);
@@ -543,6 +544,18 @@ static void cmd_build (int argc, char **argv)
   if (flags & 1) dbus_message_set_no_reply (m, TRUE);
   if (flags & 2) dbus_message_set_auto_start (m, FALSE);
   if (flags & 4) dbus_message_set_allow_interactive_authorization (m, TRUE);
+  if (fops)
+    {
+      /* a history of flag setter calls, e.g. "+n+i-i": n = no_reply, a = auto_start (inverted flag), i = interactive authorization */
+      const char *q;
+      for (q = fops; q[0] && q[1]; q += 2)
+        {
+          dbus_bool_t on = q[0] == '+';
+          if (q[1] == 'n') dbus_message_set_no_reply (m, on);
+          else if (q[1] == 'a') dbus_message_set_auto_start (m, on);
+          else if (q[1] == 'i') dbus_message_set_allow_interactive_authorization (m, on);
+        }
+    }
   if (serial) dbus_message_set_serial (m, serial);
   if (body)
     {
